@@ -10,6 +10,18 @@ typedef __int128 w128;
 #define FITS(w, e) ((w) == (w128)(__typeof__(e))(w))            /* does the exact value w fit the type of e? */
 #define RMIN(e) (sizeof(e) == 4 ? (w128)INT32_MIN : (w128)INT64_MIN)
 #define WIDTH(e) ((w128)(8 * sizeof(e)))
+static inline float as_f32(u64 b){ union { u32 b; float f; } x; x.b = (u32)b; return x.f; }
+static inline double as_f64(u64 b){ union { u64 b; double f; } x; x.b = b; return x.f; }
+typedef float f32; typedef double f64;
+#define V_i8(b)  ((i8)(b))
+#define V_i32(b) ((i32)(b))
+#define V_u32(b) ((u32)(b))
+#define V_i64(b) ((i64)(b))
+#define V_u64(b) ((u64)(b))
+#define V_f32(b) as_f32(b)
+#define V_f64(b) as_f64(b)
+#define A_f32(x) (x)
+#define A_f64(x) (x)
 #define A_i8(x)  ((u32)(i32)(x))
 #define A_i32(x) ((u32)(x))
 #define A_u32(x) ((u32)(x))
@@ -38,9 +50,9 @@ typedef __int128 w128;
 
 #ifdef LEAF_INT
 #include "C07_leaf_int.h"
-#define UCHK(op, T, DOM, EXPR) if (SEL1(T)) { T x = (T)xb; if (DOM) { u64 out = 0; int r = k_##op##_##T(A_##T(x), &out); \
+#define UCHK(op, T, DOM, EXPR) if (SEL1(T)) { T x = V_##T(xb); if (DOM) { u64 out = 0; int r = k_##op##_##T(A_##T(x), &out); \
   ASSERT(r == 1, #op "(" #T "): view exists"); ASSERT((i64)out == (i64)(EXPR), #op "(" #T ") == " #EXPR " in C's result type"); OBS(out); } }
-#define BCHK(op, T, U, DOM, EXPR) if (SEL2(T,U)) { T x = (T)xb; U y = (U)yb; if (DOM) { u64 out = 0; int r = k_##op##_##T##_##U(A_##T(x), A_##U(y), &out); \
+#define BCHK(op, T, U, DOM, EXPR) if (SEL2(T,U)) { T x = V_##T(xb); U y = V_##U(yb); if (DOM) { u64 out = 0; int r = k_##op##_##T##_##U(A_##T(x), A_##U(y), &out); \
   ASSERT(r == 1, #op "(" #T "," #U "): view exists"); ASSERT((i64)out == (i64)(EXPR), #op "(" #T "," #U ") == " #EXPR " in C's result type"); OBS(out); } }
 #define NODIV0 ((w128)y != 0 && !(SGN(x / y) && (w128)x == RMIN(x / y) && (w128)y == -1))
 #define SHIFT_OK ((w128)y >= 0 && (w128)y < WIDTH(x << y))
@@ -69,8 +81,19 @@ typedef __int128 w128;
 #define CHK_logical_and(op,T,U)   BCHK(op,T,U, 1, x && y)
 #define CHK_logical_or(op,T,U)    BCHK(op,T,U, 1, x || y)
 #define CHK_logical_xor(op,T,U)   BCHK(op,T,U, 1, (x != 0) ^ (y != 0))
-#define CHK_maximum(op,T,U)       BCHK(op,T,U, 1, x > y ? x : y)
-#define CHK_minimum(op,T,U)       BCHK(op,T,U, 1, x < y ? x : y)
+#ifdef KF_C07_MINMAX_SCALAR
+/* known finding (props/C07.py PENDING_FINDINGS): with a SCALAR operand the conditional operator inside maximum_t/minimum_t converts the scalar
+ * (which arrives as a num-view object) to the array's element type T; the excluded region is exactly where that changes the value */
+#define MMI_OK(T, cmp) ((i64)(x cmp y ? x : y) == (i64)(T)(x cmp y ? x : (T)y))
+#else
+#define MMI_OK(T, cmp) 1
+#endif
+#define CHK_maximum(op,T,U)       BCHK(op,T,U, MMI_OK(T, >), x > y ? x : y)
+#define CHK_minimum(op,T,U)       BCHK(op,T,U, MMI_OK(T, <), x < y ? x : y)
+#define BCHK_AA(op, T, U, EXPR) if (SEL2(T,U)) { T x = V_##T(xb); U y = V_##U(yb); u64 out = 0; int r = k_##op##_aa_##T##_##U(A_##T(x), A_##U(y), &out); \
+  ASSERT(r == 1, #op "(" #T "[1]," #U "[1]): view exists"); ASSERT((i64)out == (i64)(EXPR), #op "(" #T "[1]," #U "[1]) == " #EXPR " in C's result type"); OBS(out); }
+#define CHK_maximum_aa(op,T,U)    BCHK_AA(op,T,U, x > y ? x : y)
+#define CHK_minimum_aa(op,T,U)    BCHK_AA(op,T,U, x < y ? x : y)
 #define U1(op) C07_INT_TYPES(CHK_##op, op)
 #define B1(op) C07_INT_PAIRS(CHK_##op, op)
 void h_li_unary(void){   u64 xb = in_bits(); U1(negative) U1(positive) U1(invert) U1(logical_not) REACHED(); }
@@ -83,4 +106,218 @@ void h_li_shift(void){   u64 xb = in_bits(), yb = in_bits(); B1(left_shift) B1(r
 void h_li_cmp(void){     u64 xb = in_bits(), yb = in_bits(); B1(equal) B1(not_equal) B1(less) B1(less_equal) B1(greater) B1(greater_equal) REACHED(); }
 void h_li_logical(void){ u64 xb = in_bits(), yb = in_bits(); B1(logical_and) B1(logical_or) B1(logical_xor) REACHED(); }
 void h_li_minmax(void){  u64 xb = in_bits(), yb = in_bits(); B1(maximum) B1(minimum) REACHED(); }
+void h_li_minmax_aa(void){ u64 xb = in_bits(), yb = in_bits(); C07_INT_PAIRS(CHK_maximum_aa, maximum) C07_INT_PAIRS(CHK_minimum_aa, minimum) REACHED(); }
+#endif
+
+#ifdef LEAF_FLT
+#include <math.h>
+#include "C07_leaf_flt.h"
+/* Transcendental functions are UNINTERPRETED for the solver (same symbol on the kernel side and on the reference side): what is decided for
+ * them is only that the view calls the right library function, in the right precision, on the right argument(s). Natively (gate, replay) libm is used. */
+#ifndef NMV_NATIVE
+#define UF1(cd, cf) double __CPROVER_uninterpreted_##cd(double); double cd(double x){ return __CPROVER_uninterpreted_##cd(x); } \
+                    float __CPROVER_uninterpreted_##cf(float); float cf(float x){ return __CPROVER_uninterpreted_##cf(x); }
+#define UF2(cd, cf) double __CPROVER_uninterpreted_##cd(double, double); double cd(double x, double y){ return __CPROVER_uninterpreted_##cd(x, y); } \
+                    float __CPROVER_uninterpreted_##cf(float, float); float cf(float x, float y){ return __CPROVER_uninterpreted_##cf(x, y); }
+#define ZUF1(op, cd, cf) UF1(cd, cf)
+C07_FLT_UNOPS_TRANS(ZUF1)
+UF2(pow, powf) UF2(atan2, atan2f) UF2(hypot, hypotf)
+UF2(fmod, fmodf)   /* CBMC's exact fmod model gives no verdict in 300 s; treated like the transcendental ones */
+double __CPROVER_uninterpreted_ldexp(double, int); double ldexp(double x, int n){ return __CPROVER_uninterpreted_ldexp(x, n); }
+float __CPROVER_uninterpreted_ldexpf(float, int); float ldexpf(float x, int n){ return __CPROVER_uninterpreted_ldexpf(x, n); }
+#endif
+static inline int same_d(double a, double b){ return (a != a && b != b) || f64_bits(a) == f64_bits(b); }   /* NaN == NaN, -0 != +0 */
+static inline u64 canon_d(double a){ return a != a ? 0x7ff8000000000000ull : f64_bits(a); }
+/* C library call in the precision C++'s <cmath> overloads select: float only when every argument is float, otherwise double */
+#define M1_f32(cd, cf, x) cf(x)
+#define M1_f64(cd, cf, x) cd(x)
+#define M1_i32(cd, cf, x) cd((double)(x))
+#define M2_f32_f32(cd, cf, x, y) cf(x, y)
+#define M2_f64_f64(cd, cf, x, y) cd(x, y)
+#define M2_i32_f32(cd, cf, x, y) cd((double)(x), (double)(y))
+#define M2_f32_i32(cd, cf, x, y) cd((double)(x), (double)(y))
+#define M2_f32_f64(cd, cf, x, y) cd((double)(x), (double)(y))
+#define M2_i64_f32(cd, cf, x, y) cd((double)(x), (double)(y))
+#define M2_u32_f64(cd, cf, x, y) cd((double)(x), (double)(y))
+#define FUCHK(op, T, DOM, EXPR) if (SEL1(T)) { T x = V_##T(xb); if (DOM) { double out = 0; int r = k_##op##_##T(A_##T(x), &out); \
+  ASSERT(r == 1, #op "(" #T "): view exists"); ASSERT(same_d(out, (double)(EXPR)), #op "(" #T ") == " #EXPR " (bit-exact, in C's result type)"); OBS(canon_d(out)); } }
+#define PUCHK(op, T, EXPR) if (SEL1(T)) { T x = V_##T(xb); u64 out = 7; int r = k_##op##_##T(A_##T(x), &out); \
+  ASSERT(r == 1, #op "(" #T "): view exists"); ASSERT((out == 1 || out == 0) && (out != 0) == ((EXPR) != 0), #op "(" #T ") == " #EXPR); OBS(out); }
+#define FBCHK(K, op, T, U, DOM, EXPR) if (SEL2(T,U)) { T x = V_##T(xb); U y = V_##U(yb); if (DOM) { double out = 0; int r = K(A_##T(x), A_##U(y), &out); \
+  ASSERT(r == 1, #op "(" #T "," #U "): view exists"); ASSERT(same_d(out, (double)(EXPR)), #op "(" #T "," #U ") == " #EXPR " (bit-exact, in C's result type)"); OBS(canon_d(out)); } }
+#define PBCHK(op, T, U, EXPR) if (SEL2(T,U)) { T x = V_##T(xb); U y = V_##U(yb); u64 out = 7; int r = k_##op##_##T##_##U(A_##T(x), A_##U(y), &out); \
+  ASSERT(r == 1, #op "(" #T "," #U "): view exists"); ASSERT((out == 1 || out == 0) && (out != 0) == ((EXPR) != 0), #op "(" #T "," #U ") == " #EXPR); OBS(out); }
+#define FC_negative(op,T)   FUCHK(op,T, 1, -x)
+#define FC_positive(op,T)   FUCHK(op,T, 1, +x)
+#define FC_square(op,T)     FUCHK(op##_s,T, 1, FOPY(mul, R_##T, x, x))
+#define FC_reciprocal(op,T) FUCHK(op##_s,T, 1, FOPY(div, R_##T, 1, x))
+#define FC_square_a(op,T)     FUCHK(op,T, 1, FOPY(mul, R_##T, x, x))
+#define FC_reciprocal_a(op,T) FUCHK(op,T, 1, FOPY(div, R_##T, 1, x))
+#define FC_logical_not(op,T) PUCHK(op,T, !x)
+#define FC_fabs(op,T)       FUCHK(op,T, 1, M1_##T(fabs, fabsf, x))
+#define FC_ceil(op,T)       FUCHK(op,T, 1, M1_##T(ceil, ceilf, x))
+#define FC_floor(op,T)      FUCHK(op,T, 1, M1_##T(floor, floorf, x))
+#define FC_trunc(op,T)      FUCHK(op,T, 1, M1_##T(trunc, truncf, x))
+#define FC_rint(op,T)       FUCHK(op,T, 1, M1_##T(rint, rintf, x))
+#define FC_isnan(op,T)      PUCHK(op,T, isnan(M1_##T(+, +, x)))
+#define FC_isinf(op,T)      PUCHK(op,T, isinf(M1_##T(+, +, x)))
+#define FC_isfinite(op,T)   PUCHK(op,T, !isnan(M1_##T(+, +, x)) && !isinf(M1_##T(+, +, x)))   /* CBMC has no body for __builtin_isfinite */
+#define FC_signbit(op,T)    PUCHK(op,T, signbit(M1_##T(+, +, x)))
+#define KN(op,T,U) k_##op##_##T##_##U
+#define KNAA(op,T,U) k_##op##_aa_##T##_##U
+#ifdef KF_C07_MINMAX_SCALAR
+/* known finding: with a SCALAR operand, maximum/minimum/where convert the scalar to the array's element type (see props/C07.py) */
+#define MM_OK(T, cmp) same_d((double)(x cmp y ? x : y), (double)(T)(x cmp y ? x : (T)y))
+#else
+#define MM_OK(T, cmp) 1
+#endif
+/* IEEE + - * /: the reference operation is the plain C++ operator compiled through the same pipeline (k_ref_f* in kernels/C07_leaf_flt.cpp: no nmtools
+ * code). Default: exact IEEE semantics on both sides. With -DLL_UF_FLOAT (set per query) engine/ll2c.py turns + - * / into uninterpreted symbols in
+ * the kernels and in these reference functions alike: the query then decides that the view applies the IEEE operation of the right precision
+ * to the right operands in the right order (sound: anything equal under the abstraction is equal for the real operations). */
+#define FOP_add_f32(a,b) k_ref_fadd_f32(a,b)
+#define FOP_add_f64(a,b) k_ref_fadd_f64(a,b)
+#define FOP_mul_f32(a,b) k_ref_fmul_f32(a,b)
+#define FOP_mul_f64(a,b) k_ref_fmul_f64(a,b)
+#define FOP_sub_f32(a,b) k_ref_fsub_f32(a,b)
+#define FOP_sub_f64(a,b) k_ref_fsub_f64(a,b)
+#define FOP_div_f32(a,b) k_ref_fdiv_f32(a,b)
+#define FOP_div_f64(a,b) k_ref_fdiv_f64(a,b)
+/* C's usual arithmetic conversions for the listed pairs: float only when no operand is double (integers convert to the float operand's type) */
+#define R_f32_f32 f32
+#define R_f64_f64 f64
+#define R_i32_f32 f32
+#define R_f32_i32 f32
+#define R_f32_f64 f64
+#define R_i64_f32 f32
+#define R_u32_f64 f64
+#define R_f32 f32
+#define R_f64 f64
+#define FOPX(o, R, a, b) FOP_##o##_##R((R)(a), (R)(b))
+#define FOPY(o, R, a, b) FOPX(o, R, a, b)
+#define KNSS(op,T,U) k_##op##_ss_##T##_##U
+#define FC_add(op,T,U)      FBCHK(KNSS(op,T,U), op,T,U, 1, FOPY(add, R_##T##_##U, x, y))
+#define FC_subtract(op,T,U) FBCHK(KNSS(op,T,U), op,T,U, 1, FOPY(sub, R_##T##_##U, x, y))
+#define FC_multiply(op,T,U) FBCHK(KNSS(op,T,U), op,T,U, 1, FOPY(mul, R_##T##_##U, x, y))
+#define FC_divide(op,T,U)   FBCHK(KNSS(op,T,U), op,T,U, 1, FOPY(div, R_##T##_##U, x, y))
+#define FC_add_as(op,T,U)      FBCHK(KN(op,T,U), op,T,U, 1, FOPY(add, R_##T##_##U, x, y))
+#define FC_subtract_as(op,T,U) FBCHK(KN(op,T,U), op,T,U, 1, FOPY(sub, R_##T##_##U, x, y))
+#define FC_multiply_as(op,T,U) FBCHK(KN(op,T,U), op,T,U, 1, FOPY(mul, R_##T##_##U, x, y))
+#define FC_divide_as(op,T,U)   FBCHK(KN(op,T,U), op,T,U, 1, FOPY(div, R_##T##_##U, x, y))
+#define FC_maximum(op,T,U)  FBCHK(KN(op,T,U), op,T,U, MM_OK(T, >), x > y ? x : y)
+#define FC_minimum(op,T,U)  FBCHK(KN(op,T,U), op,T,U, MM_OK(T, <), x < y ? x : y)
+#define FC_maximum_aa(op,T,U) FBCHK(KNAA(op,T,U), op,T,U, 1, x > y ? x : y)
+#define FC_minimum_aa(op,T,U) FBCHK(KNAA(op,T,U), op,T,U, 1, x < y ? x : y)
+#define FC_equal(op,T,U)         PBCHK(op,T,U, x == y)
+#define FC_not_equal(op,T,U)     PBCHK(op,T,U, x != y)
+#define FC_less(op,T,U)          PBCHK(op,T,U, x < y)
+#define FC_less_equal(op,T,U)    PBCHK(op,T,U, x <= y)
+#define FC_greater(op,T,U)       PBCHK(op,T,U, x > y)
+#define FC_greater_equal(op,T,U) PBCHK(op,T,U, x >= y)
+#define FC_logical_and(op,T,U)   PBCHK(op,T,U, x && y)
+#define FC_logical_or(op,T,U)    PBCHK(op,T,U, x || y)
+#define FC_logical_xor(op,T,U)   PBCHK(op,T,U, (x != 0) ^ (y != 0))
+#define FU(op) C07_FLT_TYPES(FC_##op, op)
+#define FM(op) C07_MATH_TYPES(FC_##op, op)
+#define FB(op) C07_FLT_PAIRS(FC_##op, op)
+void h_lf_arith1(void){ u64 xb = in_bits(); FU(negative) FU(positive) FU(logical_not) REACHED(); }
+void h_lf_sqrec(void){  u64 xb = in_bits(); FU(square) FU(reciprocal) REACHED(); }            /* scalar operand (scalar_ufunc_t) */
+void h_lf_sqrec_a(void){ u64 xb = in_bits(); C07_FLT_TYPES(FC_square_a, square) C07_FLT_TYPES(FC_reciprocal_a, reciprocal) REACHED(); }   /* one-element array operand */
+void h_lf_round(void){  u64 xb = in_bits(); FM(fabs) FM(ceil) FM(floor) FM(trunc) FM(rint) REACHED(); }
+void h_lf_pred(void){   u64 xb = in_bits(); FM(isnan) FM(isinf) FM(isfinite) FM(signbit) REACHED(); }
+void h_lf_addsub(void){ u64 xb = in_bits(), yb = in_bits(); FB(add) FB(subtract) REACHED(); }
+void h_lf_mul(void){    u64 xb = in_bits(), yb = in_bits(); FB(multiply) REACHED(); }
+void h_lf_div(void){    u64 xb = in_bits(), yb = in_bits(); FB(divide) REACHED(); }
+/* the same four ops with (one-element array, scalar) operands: broadcast + ufunc_t::operator() */
+void h_lf_arith_as(void){ u64 xb = in_bits(), yb = in_bits(); C07_FLT_PAIRS(FC_add_as, add) C07_FLT_PAIRS(FC_subtract_as, subtract) C07_FLT_PAIRS(FC_multiply_as, multiply) C07_FLT_PAIRS(FC_divide_as, divide) REACHED(); }
+void h_lf_minmax(void){ u64 xb = in_bits(), yb = in_bits(); FB(maximum) FB(minimum) C07_FLT_PAIRS(FC_maximum_aa, maximum) C07_FLT_PAIRS(FC_minimum_aa, minimum) REACHED(); }
+void h_lf_cmp(void){    u64 xb = in_bits(), yb = in_bits(); FB(equal) FB(not_equal) FB(less) FB(less_equal) FB(greater) FB(greater_equal) REACHED(); }
+void h_lf_logical(void){ u64 xb = in_bits(), yb = in_bits(); FB(logical_and) FB(logical_or) FB(logical_xor) REACHED(); }
+/* library functions: fmax/fmin (exact in CBMC), fmod, and the uninterpreted ones */
+#define ZT(op, cd, cf) C07_MATH_TYPES(FCT_##op, op)
+#define FCLIB2(op, cd, cf, T, U) FBCHK(KNAA(op,T,U), op,T,U, 1, M2_##T##_##U(cd, cf, x, y))
+#define FCX_fmax(op,T,U)  FCLIB2(op, fmax, fmaxf, T, U)
+#define FCX_fmin(op,T,U)  FCLIB2(op, fmin, fminf, T, U)
+#define FCX_fmod(op,T,U)  FCLIB2(op, fmod, fmodf, T, U)
+#define FCX_power(op,T,U) FCLIB2(op, pow, powf, T, U)
+#define FCX_arctan2(op,T,U) FCLIB2(op, atan2, atan2f, T, U)
+#define FCX_hypot(op,T,U) FCLIB2(op, hypot, hypotf, T, U)
+void h_lf_fminmax(void){ u64 xb = in_bits(), yb = in_bits(); C07_FLT_PAIRS(FCX_fmax, fmax) C07_FLT_PAIRS(FCX_fmin, fmin) REACHED(); }
+void h_lf_fmod(void){    u64 xb = in_bits(), yb = in_bits(); C07_FLT_PAIRS(FCX_fmod, fmod) REACHED(); }
+void h_lf_trans2(void){  u64 xb = in_bits(), yb = in_bits(); C07_FLT_PAIRS(FCX_power, power) C07_FLT_PAIRS(FCX_arctan2, arctan2) C07_FLT_PAIRS(FCX_hypot, hypot)
+  if (SEL2(f32,i32)) { f32 x = V_f32(xb); i32 y = V_i32(yb); double out = 0; int r = k_ldexp_aa_f32_i32(x, (u32)y, &out); ASSERT(r == 1, "ldexp(f32,i32): view exists"); ASSERT(same_d(out, (double)ldexpf(x, y)), "ldexp(f32,i32) calls ldexpf(x, y)"); OBS(canon_d(out)); }
+  if (SEL2(f64,i32)) { f64 x = V_f64(xb); i32 y = V_i32(yb); double out = 0; int r = k_ldexp_aa_f64_i32(x, (u32)y, &out); ASSERT(r == 1, "ldexp(f64,i32): view exists"); ASSERT(same_d(out, ldexp(x, y)), "ldexp(f64,i32) calls ldexp(x, y)"); OBS(canon_d(out)); }
+  REACHED(); }
+#define ZTR(op, cd, cf) if (SEL1(f32)) { f32 x = V_f32(xb); double out = 0; int r = k_##op##_f32(x, &out); ASSERT(r == 1, #op "(f32): view exists"); ASSERT(same_d(out, (double)cf(x)), #op "(f32) calls " #cf "(x) (float precision)"); OBS(canon_d(out)); } \
+  if (SEL1(f64)) { f64 x = V_f64(xb); double out = 0; int r = k_##op##_f64(x, &out); ASSERT(r == 1, #op "(f64): view exists"); ASSERT(same_d(out, cd(x)), #op "(f64) calls " #cd "(x)"); OBS(canon_d(out)); } \
+  if (SEL1(i32)) { i32 x = V_i32(xb); double out = 0; int r = k_##op##_i32((u32)x, &out); ASSERT(r == 1, #op "(i32): view exists"); ASSERT(same_d(out, cd((double)x)), #op "(i32) calls " #cd "((double)x)"); OBS(canon_d(out)); }
+void h_lf_trans1(void){ u64 xb = in_bits(); C07_FLT_UNOPS_TRANS(ZTR) REACHED(); }
+#endif
+
+#ifdef LEAF_ACT
+#include <math.h>
+#include "C07_leaf_act.h"
+#ifndef NMV_NATIVE
+#define UF1(cd, cf) double __CPROVER_uninterpreted_##cd(double); double cd(double x){ return __CPROVER_uninterpreted_##cd(x); } \
+                    float __CPROVER_uninterpreted_##cf(float); float cf(float x){ return __CPROVER_uninterpreted_##cf(x); }
+UF1(exp, expf) UF1(log, logf) UF1(tanh, tanhf)
+#endif
+static inline int same_f(float a, float b){ return (a != a && b != b) || f32_bits(a) == f32_bits(b); }
+static inline int same_d(double a, double b){ return (a != a && b != b) || f64_bits(a) == f64_bits(b); }
+static inline u64 canon_f(float a){ return a != a ? 0x7fc00000u : f32_bits(a); }
+static inline u64 canon_d(double a){ return a != a ? 0x7ff8000000000000ull : f64_bits(a); }
+#define SAME_f32 same_f
+#define SAME_f64 same_d
+#define CANON_f32 canon_f
+#define CANON_f64 canon_d
+#define EXP_f32 expf
+#define EXP_f64 exp
+#define LOG_f32 logf
+#define LOG_f64 log
+#define TANH_f32 tanhf
+#define TANH_f64 tanh
+#define MAXF(a,b) ((a) < (b) ? (b) : (a))      /* std::max(a,b) */
+#define MINF(a,b) ((b) < (a) ? (b) : (a))      /* std::min(a,b) */
+#define NOTNAN(v) ((v) == (v))
+#define ACHK(CALL, op, T, DOM, EXPR) if (SEL1(T)) { T x = V_##T(xb), p = V_##T(pb), q = V_##T(qb); (void)p; (void)q; if (DOM) { T out = 0; int r = CALL; \
+  ASSERT(r == 1, #op "(" #T "): view exists"); ASSERT(SAME_##T(out, (T)(EXPR)), #op "(" #T ") == " #EXPR); OBS(CANON_##T(out)); } }
+#define A0(op, T, DOM, EXPR) ACHK(k_##op##_##T(x, &out), op, T, DOM, EXPR)
+#define A1(op, T, DOM, EXPR) ACHK(k_##op##_##T(x, p, &out), op, T, DOM, EXPR)
+#define A2(op, T, DOM, EXPR) ACHK(k_##op##_##T(x, p, q, &out), op, T, DOM, EXPR)
+#define AD(op, DOM, EXPR)    ACHK(k_##op##_def_f32(x, &out), op (default parameters), f32, DOM, EXPR)
+#define FT(M, ...) M(__VA_ARGS__)
+/* piecewise-linear / rational activations: decided bit-exactly against the documented formula (comparison form) */
+#define X_relu(T)       A0(relu, T, 1, x > 0 ? x : 0)
+#define X_relu6(T)      A0(relu6, T, 1, x < 0 ? 0 : x > 6 ? 6 : x)
+#define X_hardtanh(T)   A2(hardtanh, T, NOTNAN(p) && NOTNAN(q) && p <= q, x < p ? p : x > q ? q : x)
+#define X_leaky_relu(T) A1(leaky_relu, T, 1, x >= 0 ? x : p * x)
+#define X_prelu(T)      A1(prelu, T, 1, x >= 0 ? x : p * x)
+#define X_hardshrink(T) A1(hardshrink, T, p >= 0, (x >= -p && x <= p) ? 0 : x)
+#define X_softshrink(T) A1(softshrink, T, p >= 0, x > p ? x - p : x < -p ? x + p : 0)
+#define X_hardswish(T)  A0(hardswish, T, 1, x < -3 ? 0 : x >= 3 ? x : x * (x + 3) / 6)
+#define X_softsign(T)   A0(softsign, T, 1, x / (1 + (x > 0 ? x : -x)))
+void h_la_relu(void){ u64 xb = in_bits(), pb = 0, qb = 0; X_relu(f32) X_relu(f64) X_relu6(f32) X_relu6(f64)
+  { i32 x = (i32)xb; u32 out = 0; int r = k_relu_i32((u32)x, &out); ASSERT(r == 1 && (i32)out == (x > 0 ? x : 0), "relu(i32) == x > 0 ? x : 0"); OBS(out);
+    r = k_relu6_i32((u32)x, &out); ASSERT(r == 1 && (i32)out == (x < 0 ? 0 : x > 6 ? 6 : x), "relu6(i32) == min(max(x,0),6)"); OBS(out); }
+  REACHED(); }
+void h_la_clamp(void){ u64 xb = in_bits(), pb = in_bits(), qb = in_bits(); X_hardtanh(f32) X_hardtanh(f64) X_hardshrink(f32) X_hardshrink(f64) X_softshrink(f32) X_softshrink(f64)
+  AD(hardtanh, 1, x < -1.0f ? -1.0f : x > 1.0f ? 1.0f : x) AD(hardshrink, 1, (x >= -0.5f && x <= 0.5f) ? 0 : x) AD(softshrink, 1, x > 0.5f ? x - 0.5f : x < -0.5f ? x + 0.5f : 0) REACHED(); }
+void h_la_slope(void){ u64 xb = in_bits(), pb = in_bits(), qb = 0; X_leaky_relu(f32) X_leaky_relu(f64) X_prelu(f32) X_prelu(f64)
+  AD(leaky_relu, 1, x >= 0 ? x : 0.01f * x) AD(prelu, 1, x >= 0 ? x : 0.25f * x) REACHED(); }
+void h_la_rational(void){ u64 xb = in_bits(), pb = 0, qb = 0; X_hardswish(f32) X_hardswish(f64) X_softsign(f32) X_softsign(f64) REACHED(); }
+/* activations built on exp/log/tanh: those three are uninterpreted, the surrounding IEEE arithmetic is exact => structural check of the formula */
+#define SP(T, x, b, th) ((x) * (b) > (th) ? (x) : (T)(LOG_##T(1 + EXP_##T((x) * (b))) / (b)))
+#define X_elu(T)         A1(elu, T, 1, x > 0 ? x : p * (EXP_##T(x) - 1))
+#define X_celu(T)        A1(celu, T, 1, MAXF((T)0, x) + MINF((T)0, p * (EXP_##T(x / p) - 1)))
+#define X_selu(T)        A0(selu, T, 1, (T)1.0507009873554804934193349852946 * (MAXF(x, (T)0) + MINF((T)1.6732632423543772848170429916717 * (EXP_##T(x) - 1), (T)0)))
+#define X_sigmoid(T)     A0(sigmoid, T, 1, (T)1 / ((T)1 + EXP_##T(-x)))
+#define X_silu(T)        A0(silu, T, 1, x * ((T)1 / ((T)1 + EXP_##T(-x))))
+#define X_log_sigmoid(T) A0(log_sigmoid, T, 1, LOG_##T((T)1 / ((T)1 + EXP_##T(-x))))
+#define X_softplus(T)    A2(softplus, T, 1, SP(T, x, p, q))
+#define X_mish(T)        A0(mish, T, 1, x * TANH_##T(SP(T, x, 1.0f, 20.0f)))
+#define X_tanhshrink(T)  A0(tanhshrink, T, 1, x - TANH_##T(x))
+void h_la_exp1(void){ u64 xb = in_bits(), pb = in_bits(), qb = 0; X_elu(f32) X_elu(f64) X_celu(f32) X_celu(f64) X_selu(f32) X_selu(f64)
+  AD(elu, 1, x > 0 ? x : 1.0f * (expf(x) - 1)) AD(celu, 1, MAXF(0.0f, x) + MINF(0.0f, 1.0f * (expf(x / 1.0f) - 1))) REACHED(); }
+void h_la_exp2(void){ u64 xb = in_bits(), pb = 0, qb = 0; X_sigmoid(f32) X_sigmoid(f64) X_silu(f32) X_silu(f64) X_log_sigmoid(f32) X_log_sigmoid(f64) X_tanhshrink(f32) X_tanhshrink(f64) REACHED(); }
+void h_la_exp3(void){ u64 xb = in_bits(), pb = in_bits(), qb = in_bits(); X_softplus(f32) X_softplus(f64) X_mish(f32) X_mish(f64) AD(softplus, 1, SP(f32, x, 1.0f, 20.0f)) REACHED(); }
 #endif
